@@ -419,6 +419,17 @@ impl Property for ViewProp {
         let mut d = vw.w.check_all(Probe::Lite)?;
         d.extend(vw.check_views(Probe::Full)?);
         d.push(vw.live() as u64);
+        if self.amplify && vw.live() > 0 {
+            // whatever maintenance the future brings, the live views stay what they are: overwrite every key twice,
+            // rotate, flush, compact (the program itself is over: the world is discarded afterwards)
+            vw.amplify()?;
+            let r = std::panic::catch_unwind(std::panic::AssertUnwindSafe(|| vw.check_views(Probe::Lite)));
+            match r {
+                Ok(Ok(_)) => {}
+                Ok(Err(v)) => return Err(Violation::new("view.changed_by_later_maintenance", format!("after overwrite+flush+compaction of every keyspace: {}", v.detail))),
+                Err(_) => return Err(Violation::new("view.panics_after_later_maintenance", format!("after overwrite+flush+compaction of every keyspace a read on the live view panicked: {}", take_panic_msg()))),
+            }
+        }
         Ok(d)
     }
 
